@@ -57,9 +57,11 @@ func IterateProcessedTime(store storetypes.KVStore, cb func(key, val []byte) boo
 	defer iterator.Close()
 	for ; iterator.Valid(); iterator.Next() {
 		key := iterator.Key()
-		keySplit := strings.Split(string(key), "/")
-		// processed time key in prefix store has format: "consensusState/<height>/processedTime"
-		if len(keySplit) != 3 || keySplit[2] != "processedTime" {
+		// processed time key in prefix store has format: "consensusStates/<height>/processedTime".
+		// <height> is 16 binary bytes that may contain '/', so select by prefix, suffix and length.
+		prefix := host.KeyConsensusStatePrefix + "/"
+		if len(key) != len(prefix)+16+len(KeyProcessedTime) ||
+			!strings.HasPrefix(string(key), prefix) || !strings.HasSuffix(string(key), string(KeyProcessedTime)) {
 			// ignore all consensus state keys
 			continue
 		}
